@@ -37,7 +37,7 @@ struct NullBuf : std::streambuf {
     return n;
   }
 };
-NullBuf g_sink;
+NullBuf &g_sink = *new NullBuf;  // never destroyed: std::cout is flushed after static destructors ran
 bool g_sinkInstalled = false;
 CrashMarker g_localMarker;
 CrashMarker *g_marker = &g_localMarker;
